@@ -48,7 +48,15 @@ Fixpoint z3list_eqb (a b : list (Z * Z * Z)) : bool :=
   end.
 Definition opt_cmp {A} (o : option A) (f : A -> bool) : bool := match o with None => true | Some x => f x end.
 
+(* the share-class queue stores the exact completion time x/staking reported for the entry
+   (MsgUndelegateResponse.CompletionTime): every stored entry has a pending x/staking
+   unbonding-delegation entry of the module account with the very same time.  (Both are dumped
+   before the block: x/staking completes an entry in the block in which the share class pays it.) *)
+Definition queue_times_ok (i : sc_in) : bool :=
+  forallb (fun e => existsb (Z.eqb (ShareClass.u_time e)) (sc_staking_times i)) (sc_queue i).
+
 Definition block_corr (b : block_in) (o : block_obs) : bool :=
+  queue_times_ok (b_sc b) &&
   match run_block true b with
   | Ok m =>
       (ob_result o =? 0) &&
@@ -69,10 +77,18 @@ Definition block_corr (b : block_in) (o : block_obs) : bool :=
 
 (* monitor 1: block processing completed without error or panic *)
 Definition mon_block (o : block_obs) : bool := ob_result o =? 0.
-(* trigger 1: an entry of the share-class queue completing now records more than the module
-   account holds after x/staking's release (slash while unbonding) *)
+(* trigger 1: the entries of the share-class queue completing now record more than the module
+   account holds after x/staking's release BECAUSE the released entries were slashed while unbonding *)
 Definition trig_sc_short (b : block_in) : bool :=
-  sc_mod_bond (b_sc b) + sc_released (b_sc b) <? sc_due (b_now b) (sc_queue (b_sc b)).
+  let i := b_sc b in
+  let due := sc_due (b_now b) (sc_queue i) in
+  (* short ... *)
+  (sc_mod_bond i + sc_released i <? due) &&
+  (* ... and the shortfall is what slashes took from the entries x/staking completes in this block:
+     without them the funds would be there.  A shortfall with x/staking not having completed the
+     entry yet (nothing released, nothing slashed) is NOT this finding. *)
+  (due <=? sc_mod_bond i + sc_released i + sc_slash_loss i) && (0 <? sc_slash_loss i) &&
+  queue_times_ok i.
 
 (* ------------------------------------------------------------------ MsgCreatePool *)
 Definition pool_corr (fee ratio offs : Z) (accepted : bool) : bool :=
